@@ -368,6 +368,9 @@ PPL::Grid::remove_higher_space_dimensions(const dimension_type new_dimension) {
         gen_sys.unset_pending_rows();
       }
       dim_kinds.resize(new_dimension + 1);
+      // The remaining coordinates may allow for a smaller divisor than
+      // the removed ones did: restore the strong minimal form.
+      simplify(gen_sys, dim_kinds);
       // TODO: Consider if it is worth also preserving the congruences
       //       if they are also in minimal form.
     }
